@@ -751,6 +751,9 @@ pub struct Run {
     /// with an explicit base data offset, ALSO set the default-base-is-moof flag (the explicit
     /// base still wins: ISO/IEC 14496-12 8.8.7, and the statement's "explicit base, else ...")
     pub also_default_base_flag: bool,
+    /// the track fragment carries no run at all (tfhd with duration-is-empty + tfdt only, as
+    /// live packagers write for sparse tracks); `samples` must be empty
+    pub no_trun: bool,
 }
 
 #[derive(Debug, Clone)]
@@ -838,6 +841,9 @@ fn build_fragments(fm: &FragMovie, origin: u64, xf: &dyn Fn(&mut BoxT)) -> (Vec<
                 if r.tfhd_default_size {
                     tf.default_size = Some(7);
                 }
+                if r.no_trun && r.samples.is_empty() {
+                    tf.extra_flags |= 0x010000; // duration-is-empty
+                }
                 let mut traf = BoxT::new(b"traf");
                 traf.push(enc_tfhd(&tf));
                 traf.push(enc_tfdt(if r.tfdt_v1 { 1 } else { 0 }, 0, r.base_decode_time));
@@ -853,7 +859,9 @@ fn build_fragments(fm: &FragMovie, origin: u64, xf: &dyn Fn(&mut BoxT)) -> (Vec<
                     cts: if r.cts_present { Some(r.samples.iter().map(|s| s.cts as u32).collect()) } else { None },
                     ..Default::default()
                 };
-                traf.push(enc_trun(&tr));
+                if !(r.no_trun && r.samples.is_empty()) {
+                    traf.push(enc_trun(&tr));
+                }
                 moof.push(traf);
             }
             xf(&mut moof);
@@ -1018,6 +1026,7 @@ pub fn gen_frag_movie(rng: &mut Rng, max_frags: u32, max_tracks: u32, max_run: u
                 trun_sample_flags: rng.chance(1, 3),
                 first_sample_flags: rng.chance(1, 4),
                 also_default_base_flag: rng.chance(1, 3),
+                no_trun: n == 0 && rng.chance(1, 3),
             };
             next_time[track] = r.base_decode_time + 1000;
             runs.push(r);
